@@ -50,9 +50,10 @@ var c07Warmups = []struct {
 
 var c07CtxNames = []string{"scripts only (no tx)", "1-in/1-out tx", "2-in/0-out tx", "3-in tx, other inputs unsigned", "tx whose previous txid has 31 bytes (built through the JSON API)",
 	"tx given, previous output nil, scripts given", "tx given, previous output without script, scripts given", "nil tx with a previous output, scripts given", "tx with no inputs",
-	"tx whose checked input never had a previous txid set", "tx whose checked input has an empty previous txid (decoded from JSON without one)"}
+	"tx whose checked input never had a previous txid set", "tx whose checked input has an empty previous txid (decoded from JSON without one)",
+	"tx with an output that was added without a locking script"}
 
-const c07NCtx = 11
+const c07NCtx = 12
 
 func c07Exec(c c07Case) error {
 	eng := interpreter.NewEngine()
@@ -116,6 +117,10 @@ func c07Opts(c c07Case, ctx int) []interpreter.ExecutionOptionFunc {
 			}
 			tx.Inputs[i] = ni
 		}
+		opts = append(opts, interpreter.WithTx(tx, c.Idx, prev))
+	case 11:
+		tx := mkTx(2, 1)
+		tx.AddOutput(&bt.Output{Satoshis: 1})
 		opts = append(opts, interpreter.WithTx(tx, c.Idx, prev))
 	case 5:
 		opts = append(opts, interpreter.WithTx(mkTx(1, 1), c.Idx, nil), interpreter.WithScripts(lock, unlock))
@@ -317,7 +322,7 @@ func c07Sizes(thorough bool) (a, b, c uint64) {
 
 var c07ReuseFlags = []uint32{0, uint32(scriptflag.EnableSighashForkID | scriptflag.UTXOAfterGenesis), 0xffff &^ uint32(scriptflag.VerifyCleanStack)}
 
-// D: reuse — one Engine value executing the same script pair twice, in every ordered pair of the 11 contexts
+// D: reuse — one Engine value executing the same script pair twice, in every ordered pair of the 12 contexts
 func c07Sizes4(thorough bool) (a, b, c, d uint64) {
 	ns := uint64(len(c07ScriptSet()))
 	sub := uint64(64)
@@ -409,7 +414,7 @@ func c07At(thorough bool, i uint64) c07Case {
 
 func init() {
 	p := register(&Prop{ID: "C07", Level: "model_checking",
-		Rule: "exhaustive exploration of Engine.Execute in isolated child processes (panic recovered per case; log.Fatal / out-of-memory / hang attributed through a progress marker and reproduced twice): (A) ALL 65,536 flag words x 64 (quick) / 256 (thorough) representative script pairs with a transaction; (B) ~2,300 script pairs (every opcode with 0/1/2/3 operands and inside an unexecuted branch, signature checks followed by a top-level OP_RETURN and every one-byte tail, unlocking scripts that execute OP_CODESEPARATOR or fill the alt stack and end early against short signature-checking locking scripts, standard templates, multisig with junk signatures/keys/counts incl. 2^31-1 and 2^32, every malformed-signature class x key encodings, truncated pushes, signature checks over script code made of wide empty push headers) x 16 flag words x 11 transaction contexts (none; 1-in/1-out; 2-in/0-out; other inputs unsigned; 31-byte previous txid built through JSON; nil previous output; previous output without script; nil tx; tx without inputs; inputs that never had a previous txid; inputs with an empty one) x input index {-1,0,1,2,2^31-1} x debugger {none, recording, fan-out, scribbling}; (C) every byte string of length<=2 as locking script x 3 unlocking seeds x 4 flag words x with/without transaction; (D) one Engine value executing each of the script pairs twice, in every ordered pair of the 11 contexts x 3 flag words; (E) one Engine value that first executed one of 7 warm-up programs (P2SH spends, early return, OP_RETURN inside an unterminated conditional, failures inside nested conditionals with alt-stack items, deep stacks, code separators) and then each script pair x 4 flag words x with/without debugger. Oracle: Execute returns nil or an error, and allocates less than 32 MiB. The lockstep checks C05/C08/C19 additionally run ~10^7 executions under the same panic containment. states = distinct (context, debugger, outcome class) combinations; transitions = executions",
+		Rule: "exhaustive exploration of Engine.Execute in isolated child processes (panic recovered per case; log.Fatal / out-of-memory / hang attributed through a progress marker and reproduced twice): (A) ALL 65,536 flag words x 64 (quick) / 256 (thorough) representative script pairs with a transaction; (B) ~2,300 script pairs (every opcode with 0/1/2/3 operands and inside an unexecuted branch, signature checks followed by a top-level OP_RETURN and every one-byte tail, unlocking scripts that execute OP_CODESEPARATOR or fill the alt stack and end early against short signature-checking locking scripts, standard templates, multisig with junk signatures/keys/counts incl. 2^31-1 and 2^32, every malformed-signature class x key encodings, truncated pushes, signature checks over script code made of wide empty push headers) x 16 flag words x 12 transaction contexts (none; 1-in/1-out; 2-in/0-out; other inputs unsigned; 31-byte previous txid built through JSON; nil previous output; previous output without script; nil tx; tx without inputs; inputs that never had a previous txid; inputs with an empty one; a transaction one of whose outputs was added without a locking script) x input index {-1,0,1,2,2^31-1} x debugger {none, recording, fan-out, scribbling}; (C) every byte string of length<=2 as locking script x 3 unlocking seeds x 4 flag words x with/without transaction; (D) one Engine value executing each of the script pairs twice, in every ordered pair of the 12 contexts x 3 flag words; (E) one Engine value that first executed one of 7 warm-up programs (P2SH spends, early return, OP_RETURN inside an unterminated conditional, failures inside nested conditionals with alt-stack items, deep stacks, code separators) and then each script pair x 4 flag words x with/without debugger. Oracle: Execute returns nil or an error, and allocates less than 32 MiB. The lockstep checks C05/C08/C19 additionally run ~10^7 executions under the same panic containment. states = distinct (context, debugger, outcome class) combinations; transitions = executions",
 	})
 	NewSpace(p, "c07", c07Check)
 	worker.Register(&worker.Space{
